@@ -592,8 +592,9 @@ def model_op(case, obs):
                 fails.append(True)
             recs.append(mr)
             fails.append(False)
-        return {"op": "c14", "descriptors": _on(case), "records": recs, "fails": fails, "hashes": obs["hashes"]}
-    return {"op": "c14", "descriptors": _on(case), "records": obs["model_records"], "hashes": obs["hashes"]}
+        return {"op": "c14", "descriptors": _on(case), "records": recs, "fails": fails}
+    # no "hashes" table: the model computes the descriptor hash of `_recorddescriptor` itself (Spec.descriptorHash)
+    return {"op": "c14", "descriptors": _on(case), "records": obs["model_records"]}
 
 
 def _nan_eq(a, b):
